@@ -772,6 +772,11 @@ func nilness(v ssa.Value) (isNil bool, known bool) {
 			return false, true
 		}
 	case *ssa.Call:
+		// the error constructors of the standard library never return nil
+		switch CalleeName(&x.Call) {
+		case "errors.New", "fmt.Errorf":
+			return false, true
+		}
 		return callNilness(x, 0, 0)
 	case *ssa.Extract:
 		if call, ok := x.Tuple.(*ssa.Call); ok {
